@@ -125,8 +125,9 @@ def generate(rng):
             # the user inspected gradients before training: parameters carry a stale .grad when fit() starts
             ops.append({"fault": "stale_grad", "n_paths": rng.choice([2, 3]), "torch_seed": rng.seed31()})
         init = None
-        if rng.chance(0.3):
-            init = {"BrownianStock": [1.1], "HestonStock": [1.1, 0.05], "RoughBergomiStock": [1.1, 0.05]}.get(pkind, [1.1])
+        if rng.chance(0.4):
+            s0 = rng.choice([1.1, 1.1, 100.0, 25.0])   # markets quoted around 100: gradient norms far above 1
+            init = {"HestonStock": [s0, 0.05], "RoughBergomiStock": [s0, 0.05]}.get(pkind, [s0])
         oname = rng.choice(["SGD", "Adam", "Adadelta", "SGDm"])
         ops.append({"op": "fit", "n_epochs": rng.choice([0, 1, 2, 2, 3]), "n_paths": rng.npaths([1, 2, 3, 6]), "n_times": rng.choice([1, 1, 2, 3]),
                     "validation": rng.chance(0.7), "optimizer": oname, "as_instance": rng.chance(0.4),
